@@ -17,12 +17,21 @@ Theorem C19_windows_bounded : forall n0 n, reach n0 n ->
   n_cfg n = n_cfg n0.
 Proof. exact NodeD.C19_windows_bounded. Qed.
 
-(* ---- invariant 6 (C19), under ce_guard ---- *)
-Theorem C19_waiting_hosts : forall n0 n, reach_g n0 n ->
+(* ---- invariant 6 (C19), under conn_guard alone (no peer named "", clause iii): every key of
+   _peer_waiting is the host identity of a live connection.  No condition on capabilities-exchange
+   messages is needed: a host identity is written only while the connection is CONNECTED, requests are
+   filed only for connections past that state, and remove_peer_connection drops the entries of the host
+   identity the connection has at that time. ---- *)
+Theorem C19_waiting_hosts : forall n0 n, reach_nc n0 n ->
   forall h, List.In h (List.map fst (n_peer_waiting n)) ->
   h <> ""%string /\ exists c, List.In c (n_conns n) /\ c_host c = h.
 Proof. exact NodeD.C19_waiting_hosts. Qed.
 
+Theorem C19_no_conns_no_waiting : forall n0 n, reach_nc n0 n -> n_conns n = [] ->
+  n_half_ready n = [] /\ n_socket_peers n = [] /\ n_peer_waiting n = [].
+Proof. exact NodeD.C19_no_conns_no_waiting. Qed.
+
+(* with the peers' connections: ce_guard *)
 Theorem C19_no_conns_no_tables : forall n0 n, reach_g n0 n -> n_conns n = [] ->
   n_half_ready n = [] /\ n_socket_peers n = [] /\ n_peer_waiting n = [] /\
   (forall p, List.In p (n_peers n) -> p_conn p = None).
@@ -33,26 +42,21 @@ Theorem C13_closed_stays_closed : forall n0 n cid r c evs, reach n0 n -> get_con
   ~ List.In cid (List.map c_id (n_conns n')) /\ ~ List.In cid (n_half_ready n') /\ ~ List.In cid (n_socket_peers n').
 Proof. exact NodeD.C13_closed_stays_closed. Qed.
 
-(* ---- FINDING (C19): without clause (i), _peer_waiting leaks.  Peers b, c; an accepted connection
-   sends CER "b", an application request (filed under host b), then a second CER "c" (accepted on
-   the READY connection: its host identity becomes c); when the connection closes only the entry of
-   host c is dropped.  No connection is left, the entry of b stays for ever; c.connection dangles. *)
-Theorem C19_waiting_hosts_refuted :
-  exists n0 evs, wf_init_g n0 /\
-    let n := fst (run n0 evs) in
-    n_conns n = [] /\ n_half_ready n = [] /\ n_socket_peers n = [] /\
-    exists h, List.In h (List.map fst (n_peer_waiting n)) /\ h <> ""%string.
-Proof. exact NodeD.C19_waiting_hosts_refuted. Qed.
-
-(* ---- clause (iii) of the guard is needed (not affected by the repair): the gate of PeerConnection
+(* ---- clause (iii) of the guard is needed (not affected by the repairs): the gate of PeerConnection
    lets everything through in state CONNECTING; an application request read from a connection whose
    connect() is still in progress is filed under the empty host identity and is never dropped.  The
-   history satisfies clauses (i) and (ii). ---- *)
+   history satisfies clause (i'). ---- *)
 Theorem C19_connecting_read_refuted :
   exists n0 evs, wf_init_g n0 /\ cer_guard n0 evs /\
     let n := fst (run n0 evs) in
     n_conns n = [] /\ n_peer_waiting n = [(""%string, [(7%Z, 7%Z)])].
 Proof. exact NodeD.C19_connecting_read_refuted. Qed.
+
+Theorem C19_empty_name_refuted :
+  exists n0 evs, wf_init n0 /\ ce_guard n0 evs /\
+    let n := fst (run n0 evs) in
+    List.In ""%string (List.map fst (n_peer_waiting n)).
+Proof. exact NodeD.C19_empty_name_refuted. Qed.
 End FromNodeD.
 
 Module FromNodeC.
@@ -101,10 +105,11 @@ End FromNodeC.
 
 Print Assumptions FromNodeD.C19_windows_bounded.
 Print Assumptions FromNodeD.C19_waiting_hosts.
+Print Assumptions FromNodeD.C19_no_conns_no_waiting.
 Print Assumptions FromNodeD.C19_no_conns_no_tables.
 Print Assumptions FromNodeD.C13_closed_stays_closed.
-Print Assumptions FromNodeD.C19_waiting_hosts_refuted.
 Print Assumptions FromNodeD.C19_connecting_read_refuted.
+Print Assumptions FromNodeD.C19_empty_name_refuted.
 Print Assumptions FromNodeC.C09_removed_on_close.
 Print Assumptions FromNodeC.C10_correlation.
 Print Assumptions FromNodeC.C10_duplicate_ignored.
